@@ -18,11 +18,12 @@ func init() { register(&Spec{ID: "C14", Targets: []load.Target{load.Linux, load.
 
 func runC14(c *core.Ctx) {
 	runFixtures(c, "drop", "nilguard")
-	c.Explain("Structural clauses of C14 decided from source; 'inject a fault at each store call index' becomes 'follow the error edge of each fallible call': (R14.1) the []OpResult of every Transaction.Commit in packages keyvalue/mem is not discarded: it is returned to a caller that reads it, or each element's Err is read and reaches a return; (R14.2) for every fallible call in package keyvalue (Store/Transaction/FileRecord/blob calls, save, setFile, getFile…, on both the serial-fallback and TransactionStore paths) the error is returned, wrapped or handed on along every failing path (accepted: errors.Is(ErrNotExist/ErrExist) look-up idioms — those are not store failures —, closing read-only handles, aborting on an error path); (R14.3a) the pointer/interface result that came with a non-nil error is never invoked or dereferenced on that path; (R14.3b) a struct field assigned together with an error field from one call is never invoked without a dominating nil-test of it or of the paired error; (R14.4) each Go-level Transaction implementation stores the store's Get/Set error into the recorded OpResult.Err. NOT claimed: that a fresh look-up shows exactly what the store holds after a fault, hang-freedom, panics from index expressions on result slices, examples/s3 (not loadable offline).")
+	c.Explain("Structural clauses of C14 decided from source; 'inject a fault at each store call index' becomes 'follow the error edge of each fallible call': (R14.1) the []OpResult of every Transaction.Commit in packages keyvalue/mem is not discarded: it is returned to a caller that reads it, or each element's Err is read and reaches a return; (R14.2) for every fallible call in package keyvalue (Store/Transaction/FileRecord/blob calls, save, setFile, getFile…, on both the serial-fallback and TransactionStore paths) the error is returned, wrapped or handed on along every failing path (accepted: errors.Is(ErrNotExist/ErrExist) look-up idioms — those are not store failures —, closing read-only handles, aborting on an error path); (R14.3a) the pointer/interface result that came with a non-nil error is never invoked or dereferenced on that path; (R14.3b) a struct field assigned together with an error field from one call is never invoked without a dominating nil-test of it or of the paired error; (R14.4) each Go-level Transaction implementation stores the store's Get/Set error into the recorded OpResult.Err. (R14.5) a function of package keyvalue that answers a list of paths with slices allocated as make(T, len(paths)) returns those slices on every path: a nil or shorter slice on the store-failure path makes the callers, which index by path, panic instead of returning the error. NOT claimed: that a fresh look-up shows exactly what the store holds after a fault, hang-freedom, panics from index expressions on result slices, examples/s3 (not loadable offline).")
 	c.Assume("A1: a Store/Transaction/FileRecord implementation reports failure through its error result", "A6: partial correctness")
 	c.RuleDoc("R14.1", "commit results are read")
 	c.RuleDoc("R14.2", "no store-layer error dropped on any failing path in package keyvalue")
 	c.RuleDoc("R14.3", "no use of a value that came with an error (call results and paired fields)")
+	c.RuleDoc("R14.5", "per-path result slices keep the input's length on the failure path")
 	c.RuleDoc("R14.4", "transaction implementations record store errors")
 	for _, p := range c.Progs {
 		c.SetProg(p)
@@ -31,12 +32,14 @@ func runC14(c *core.Ctx) {
 			r14Commit(c, p)
 			r14Paired(c, p)
 			r14Record(c, p)
+			r14ParallelShape(c, p)
 		}
 	}
 	c.Floor("R14.1", 4)
 	c.Floor("R14.2", 40)
 	c.Floor("R14.3", 1)
 	c.Floor("R14.4", 4)
+	c.Floor("R14.5", 3)
 }
 
 func pkgFuncs(p *load.Program, rel string) []*ssa.Function {
@@ -540,4 +543,57 @@ func resultsCoverage(res ssa.Value, fn *ssa.Function, commit *ssa.Call) string {
 		return "only a computed index of the results is inspected"
 	}
 	return ""
+}
+
+// r14ParallelShape (R14.5): a function that answers a list of paths with slices allocated as make(T, len(paths))
+// returns those slices on every path — the failure path included. Callers index the results by path; a nil or
+// one-element slice on the store-failure path turns the failure into an index-out-of-range panic.
+func r14ParallelShape(c *core.Ctx, p *load.Program) {
+	for _, fn := range pkgFuncs(p, "keyvalue") {
+		if fn.Parent() != nil || fn.Blocks == nil {
+			continue
+		}
+		// canonical allocations: make([]T, len(param))
+		canon := map[ssa.Value]bool{}
+		ssax.Instrs(fn, func(ins ssa.Instruction) {
+			ms, ok := ins.(*ssa.MakeSlice)
+			if !ok {
+				return
+			}
+			if cl, ok := ms.Len.(*ssa.Call); ok {
+				if b, ok := cl.Call.Value.(*ssa.Builtin); ok && b.Name() == "len" {
+					if _, isParam := cl.Call.Args[0].(*ssa.Parameter); isParam {
+						canon[ms] = true
+					}
+				}
+			}
+		})
+		if len(canon) == 0 {
+			continue
+		}
+		rets := ssax.Returns(fn)
+		for ri := 0; ri < fn.Signature.Results().Len(); ri++ {
+			if _, isSlice := fn.Signature.Results().At(ri).Type().Underlying().(*types.Slice); !isSlice {
+				continue
+			}
+			some := false
+			for _, r := range rets {
+				if canon[r.Results[ri]] {
+					some = true
+				}
+			}
+			if !some {
+				continue
+			}
+			key := fmt.Sprintf("%s|result#%d-length", fname(fn), ri)
+			bad := ""
+			for _, r := range rets {
+				if !canon[r.Results[ri]] {
+					bad = p.Pos(r.Pos())
+				}
+			}
+			c.Check(bad == "", "R14.5", key, p.Pos(fn.Pos()), "every return hands back the slice allocated with the input's length",
+				fmt.Sprintf("%s returns, at %s, a slice that is not the one allocated with len(paths): callers index the results by path, so on that path (the store could not be reached) they panic with index out of range instead of returning the store's error", fname(fn), bad))
+		}
+	}
 }
